@@ -604,6 +604,19 @@ class RT:
 
             fq = SymSeq(elem, n, name=f"filter({q.name})")
             fq.source = q
+            # witness: a non-empty result has a first element, which comes from a position satisfying the condition
+            n1 = len(c.pc)
+            try:
+                c.nofork += 1
+                elem(tm.mk_int(0))
+                w = c.pc[n1:]
+                del c.pc[n1:]
+                if w:
+                    c.pc.append(tm.Implies(tm.Ge(n, tm.mk_int(1)), tm.And(*w)))
+            except sym.Speculation:
+                del c.pc[n1:]
+            finally:
+                c.nofork -= 1
             # completeness: if some source position satisfies the condition, the result is not empty
             jv = tm.Var(c.fresh_name("j!bound"), INT)
             n0 = len(c.pc)
